@@ -971,11 +971,70 @@ pub fn c19(args: &Args) {
     let sizes = c19_sizes(args.tier);
     let reps = args.pick(6, 60);
     let n = sizes.len() as u64 * reps;
-    let s2 = sizes.clone();
-    run_cases(&mut report, n, args.threads, Duration::from_secs(args.pick(200, 2400)), move |i| {
-        let entries = s2[(i % s2.len() as u64) as usize];
-        block_on_paused(c19_case(seed, i, entries, false))
+    // The cases run in child processes: a misaligned or out-of-bounds access in the
+    // unchecked decode aborts the process in a debug build (rustc's runtime checks do
+    // not unwind) or simply crashes it; the parent turns that into a violation naming
+    // the case the child was working on.
+    let exe = std::env::current_exe().expect("own path");
+    let dir = std::path::PathBuf::from("/verif/harness/target/tmp").join(format!("c19-{}", std::process::id()));
+    let _ = std::fs::create_dir_all(&dir);
+    let workers = args.threads.max(1) as u64;
+    let per = (n + workers - 1) / workers;
+    let tier = if args.tier == Tier::Quick { "quick" } else { "thorough" };
+    let results: Vec<(Vec<Value>, Vec<Violation>, Vec<String>)> = std::thread::scope(|sc| {
+        let mut hs = Vec::new();
+        for w in 0..workers {
+            let (exe, dir) = (exe.clone(), dir.clone());
+            hs.push(sc.spawn(move || {
+                let (mut from, to) = (w * per, ((w + 1) * per).min(n));
+                let (mut reports, mut viols, mut notes) = (Vec::new(), Vec::new(), Vec::new());
+                let mut crashes = 0;
+                while from < to {
+                    let progress = dir.join(format!("progress-{w}"));
+                    let out = dir.join(format!("out-{w}-{from}.json"));
+                    let _ = std::fs::remove_file(&progress);
+                    let status = std::process::Command::new(&exe)
+                        .arg("C19-batch")
+                        .args(["--seed", &seed.to_string(), "--tier", tier, "--from", &from.to_string(), "--to", &to.to_string()])
+                        .arg("--progress")
+                        .arg(&progress)
+                        .arg("--out")
+                        .arg(&out)
+                        .stderr(std::process::Stdio::null())
+                        .status();
+                    if matches!(&status, Ok(st) if st.success()) && out.exists() {
+                        reports.push(serde_json::from_slice(&std::fs::read(&out).unwrap()).unwrap_or(Value::Null));
+                        break;
+                    }
+                    let text = std::fs::read_to_string(&progress).unwrap_or_default();
+                    let parts: Vec<&str> = text.split_whitespace().collect();
+                    crashes += 1;
+                    if parts.len() < 2 || crashes > 40 {
+                        notes.push(format!("C19 child {w} failed ({status:?}) without usable progress information"));
+                        break;
+                    }
+                    let idx: u64 = parts[0].parse().unwrap_or(from);
+                    viols.push(Violation {
+                        signature: "C19:process-crashed-while-fetching-a-state".into(),
+                        detail: json!({"case_index": idx, "entries": parts[1], "child_status": format!("{status:?}"), "build": if cfg!(debug_assertions) { "debug" } else { "release" }}),
+                    });
+                    from = idx + 1;
+                }
+                (reports, viols, notes)
+            }));
+        }
+        hs.into_iter().map(|h| h.join().unwrap()).collect()
     });
+    for (reports, viols, notes) in results {
+        for r in reports {
+            report.merge_child(&r);
+        }
+        for v in viols {
+            report.add_violation(v, Some(json!({"note": "re-run ./check C19; the crash is deterministic for a given build"})));
+        }
+        report.run_inconclusive.extend(notes);
+    }
+    let _ = std::fs::remove_dir_all(&dir);
     // sample over real TCP
     let tcp_sizes: Vec<usize> = vec![0, 1, 17, 300, 1024, 5000, 20_000];
     let outs = block_on_real(4, async move {
@@ -992,5 +1051,24 @@ pub fn c19(args: &Args) {
     report.floor("states_fetched", 100);
     report.floor("corrupted_state_replies", 1_000);
     report.floor("fetched_over_tcp", 5);
+    report.finish(args);
+}
+
+/// Child entry point: `mon C19-batch --from A --to B --progress P --out O`.
+pub fn c19_batch(args: &Args) {
+    if std::env::var("MON_PANIC_MSGS").is_err() {
+        std::panic::set_hook(Box::new(|_| {}));
+    }
+    let mut report = Report::new(args, "E1-actor-c19-child", "child");
+    let sizes = c19_sizes(args.tier);
+    let (from, to) = (args.opt_u64("from", 0), args.opt_u64("to", 0));
+    let progress = args.opt_str("progress").map(std::path::PathBuf::from);
+    for i in from..to {
+        let entries = sizes[(i % sizes.len() as u64) as usize];
+        if let Some(p) = &progress {
+            let _ = std::fs::write(p, format!("{i} {entries}"));
+        }
+        report.absorb(block_on_paused(c19_case(args.seed, i, entries, false)));
+    }
     report.finish(args);
 }
